@@ -165,4 +165,160 @@ def c07(ctx):
     report(ctx, d, ["audit", "vars", "orig"], ["ident", "shape"], "structural soundness and untouched context")
 
 
-CHECKS = {"C01": c01, "C02": c02, "C06": c06, "C07": c07}
+# ----------------------------------------------------------------------------- C09 sequences
+
+
+def walk_case(args):
+    """one random walk on the real code, every step on clone_from_root of the chosen node;
+    returns the list of steps with everything the checks need"""
+    start_text, seed, length = args
+    from .props_parse import same_meaning
+    from . import parse_run as pr
+    rng = random.Random(seed)
+    out = {"start": start_text, "steps": [], "problems": []}
+    try:
+        current = core.parse_fresh(start_text)
+    except Exception:
+        return None
+    try:
+        start_tuple = core.to_tuple(current)
+    except core.Unmodelled:
+        return None
+    history = [(current, core.snapshot(current))]
+    for step in range(length):
+        options = []
+        for rn in core.RULE_NAMES:
+            rule = core.RULES[rn]()
+            try:
+                for n in rule.find_nodes(current):
+                    options.append((rn, n.r_index))
+            except Exception as e:  # noqa
+                out["problems"].append({"step": step, "what": f"find_nodes({rn}) raised {type(e).__name__}"})
+        if not options:
+            break
+        rn, idx = rng.choice(options)
+        rule = core.RULES[rn]()
+        node = core.inorder(current)[idx]
+        before = core.to_tuple(current, core.tag_map(current))
+        try:
+            copy_node = node.clone_from_root()
+            tags = core.tag_map(copy_node.get_root())
+            change = rule.apply_to(copy_node)
+            new_root = change.result.get_root()
+        except Exception as e:  # noqa
+            out["problems"].append({"step": step, "rule": rn, "idx": idx, "what": f"apply raised {type(e).__name__}: {e}"[:200]})
+            break
+        rec = {"rule": rn, "idx": idx, "before": before}
+        try:
+            after = core.to_tuple(new_root, tags)
+        except core.Unmodelled:
+            rec["unmodelled"] = True
+            out["steps"].append(rec)
+            break  # NaN/inf constant: the sequence ends here (finite constants only)
+        rec["after"] = after
+        probs = core.audit_links(new_root)
+        if probs:
+            out["problems"].append({"step": step, "rule": rn, "what": "malformed tree", "audit": probs})
+        bad = core.refines(start_tuple, after)
+        if bad is not None:
+            out["problems"].append({"step": step, "rule": rn, "idx": idx, "what": "not equivalent to the start", "witness": bad,
+                                    "state": core.tuple_str(after)})
+        try:
+            text = str(new_root)
+            rp = pr.impl_parse(text)
+            if rp[0] != "ok":
+                out["problems"].append({"step": step, "rule": rn, "what": "does not re-parse", "text": text, "result": str(rp)})
+            else:
+                sm = same_meaning(after, rp[1])
+                if sm is not None:
+                    out["problems"].append({"step": step, "rule": rn, "what": "re-parses to another meaning", "text": text, "witness": sm})
+            rec["text"] = text
+        except Exception as e:  # noqa
+            out["problems"].append({"step": step, "rule": rn, "what": f"printing raised {type(e).__name__}"})
+        for k, (root_k, snap_k) in enumerate(history):
+            if core.snapshot(root_k) != snap_k:
+                out["problems"].append({"step": step, "rule": rn, "what": f"earlier state {k} was altered"})
+        out["steps"].append(rec)
+        current = new_root
+        history.append((current, core.snapshot(current)))
+    return out
+
+
+def c09(ctx):
+    import multiprocessing as mp
+    ctx.coverage["rule"] = (
+        "random walks from the repo's rule examples, hand-written pattern texts, generated problems and random "
+        "grammar trees: at every step a uniformly chosen (rule, option, applicable node), applied to clone_from_root "
+        "as agents do; after every step the state is audited, compared with the START by exact evaluation (value / "
+        "solution set), printed and re-parsed, every earlier state is re-snapshotted, and the step is replayed on "
+        "the Lean model from the implementation's current tree. Walk length 8 (quick) / 40 (thorough). "
+        "Non-trivial: a step that applied a rule."
+    )
+    rng = random.Random(ctx.seed * 65537 + 9)
+    quick = ctx.tier == "quick"
+    starts = list(dict.fromkeys(gen.PATTERN_TEXTS + gen.rule_test_texts()))
+    for _ in range(150 if quick else 3000):
+        t = gen.rand_tree(rng, rng.choice([2, 3, 3, 4]), allow_eq=rng.random() < 0.3)
+        txt, r = gen.reachable(t)
+        if r is not None and core.tuple_size(r) <= 40:
+            starts.append(txt)
+    try:
+        from mathy_core import problems as PR
+        import random as _r
+        st = _r.getstate()
+        _r.seed(ctx.seed + 1)
+        for _ in range(20 if quick else 400):
+            starts.append(PR.gen_simplify_multiple_terms(rng.randint(2, 5))[0])
+            starts.append(PR.gen_binomial_times_binomial()[0])
+        _r.setstate(st)
+    except Exception:
+        pass
+    length = 8 if quick else 40
+    reps = 2 if quick else 6
+    jobs = [(s, rng.randrange(1 << 30), length) for s in starts for _ in range(reps)]
+    with mp.Pool(16) as pool:
+        walks = [w for w in pool.imap(walk_case, jobs, chunksize=8) if w is not None]
+    drv = core.Driver()
+    lines, where = [], []
+    for wi, w in enumerate(walks):
+        for si, st in enumerate(w["steps"]):
+            lines.append(f"apply {st['rule']} {st['idx']} {core.tuple_to_wire(st['before'])}")
+            where.append((wi, si))
+    ans = drv.ask(lines)
+    diffs, bad = [], []
+    nsteps = 0
+    hist = {}
+    for (wi, si), a in zip(where, ans):
+        st = walks[wi]["steps"][si]
+        toks = a.split()
+        nsteps += 1
+        hist[st["rule"]] = hist.get(st["rule"], 0) + 1
+        if st.get("unmodelled"):
+            if not (toks[0] == "err" and toks[1] in ("nonFinite", "outOfDomain")):
+                diffs.append({"start": walks[wi]["start"], "step": si, "rule": st["rule"], "impl": "non-finite constant", "model": a[:200]})
+            continue
+        if toks[0] == "err":
+            if toks[1] != "outOfDomain":
+                diffs.append({"start": walks[wi]["start"], "step": si, "rule": st["rule"], "idx": st["idx"],
+                              "before": core.tuple_str(st["before"]), "impl": core.tuple_str(st["after"]), "model": a})
+            continue
+        m = core.wire_to_tuple(toks, 1)[0]
+        if not core.tuples_agree(st["after"], m, with_tags=True):
+            diffs.append({"start": walks[wi]["start"], "step": si, "rule": st["rule"], "idx": st["idx"],
+                          "before": core.tuple_str(st["before"]), "impl": core.tuple_to_wire(st["after"]),
+                          "model": core.tuple_to_wire(m)})
+    for w in walks:
+        for p in w["problems"]:
+            bad.append({"start": w["start"], "sequence": [(s["rule"], s["idx"]) for s in w["steps"]], **p})
+    ctx.coverage["evaluations"] += len(walks)
+    ctx.coverage["distinct_nontrivial"] += nsteps
+    ctx.coverage["traces_validated_against_impl"] += nsteps
+    ctx.notes["generator"] = {"starts": len(starts), "walks": len(walks), "steps": nsteps, "steps_per_rule": hist}
+    for w in walks[:: max(1, len(walks) // 6)][:6]:
+        ctx.sample({"start": w["start"], "sequence": [(s["rule"], s["idx"]) for s in w["steps"]],
+                    "end": w["steps"][-1].get("text") if w["steps"] else None})
+    from .props_parse import finish
+    finish(ctx, [("sequence", bad)], [("step", diffs)], "any sequence of rewrites stays equivalent to the start")
+
+
+CHECKS = {"C01": c01, "C02": c02, "C06": c06, "C07": c07, "C09": c09}
